@@ -32,11 +32,18 @@ Lemma tie_c0sqrt : forall (F : Type) (K : Ops F) (q : nat) (U0 : list (list F)) 
   c0sqrt K q U0 s0 = opa_c0sqrt_src K q U0 s0.
 Proof. reflexivity. Qed.
 
-(* both decompositions are SVDs without sign flipping: the faithful variant of the model is the one with
-   use_svd_as_eig = true *)
+(* the decompositions run without sign flipping through the exact solver; whether the eigen-problem of the
+   target goes through an SVD (singular values taken as eigenvalues) is the generated flag: the variant of
+   the model that corresponds to the source as it stands is the one selected by that flag *)
 Lemma tie_decomposition :
-  opa_eigen_via_svd = true /\ opa_decomposer_flip_signs = false /\ opa_decomposer_solver = "full"%string /\ opa_real_data_only = true.
+  opa_decomposer_flip_signs = false /\ opa_decomposer_solver = "full"%string /\ opa_real_data_only = true.
 Proof. repeat split; reflexivity. Qed.
+
+Definition opa_fit_src {F : Type} (K : Ops F) := opa_fit K opa_eigen_via_svd.
+
+Lemma tie_variant : forall (F : Type) (K : Ops F) (n p q k : nat) (S E Ci U : list (list F)) (lam : list F),
+  o_tau (opa_fit_src K n p q k S E Ci U lam) = reported K opa_eigen_via_svd k lam.
+Proof. reflexivity. Qed.
 
 (* filter patterns, patterns, series, back-projection: the products of the fitted record *)
 Lemma tie_products : forall (F : Type) (K : Ops F) (svd : bool) (n p q k : nat) (S E Ci U : list (list F)) (lam : list F),
@@ -64,7 +71,7 @@ Lemma model_matches_source :
   (forall (F : Type) (K : Ops F) (n : nat) (x : F),
      pc_scale K n x = opa_pc_scale_src K n x /\ eof_scale K n x = opa_eof_scale_src K n x) /\
   (forall n tau : nat, opa_ctau_divisor_src n tau = (Z.of_nat (n - tau) - 1)%Z) /\
-  opa_eigen_via_svd = true /\ opa_decomposer_flip_signs = false /\ opa_lag_loop_includes_tau_max = true /\
+  opa_decomposer_flip_signs = false /\ opa_lag_loop_includes_tau_max = true /\
   opa_store = [("input_data", "scores"); ("components", "W"); ("scores", "P"); ("norms", "norms");
                ("filter_patterns", "V"); ("decorrelation_time", "lbda")]%string.
 Proof. repeat split; reflexivity. Qed.
